@@ -11,7 +11,7 @@ def gen_request(rng, allow_special=True):
     method = rng.choice(METHODS)
     target = rng.choice(TARGETS)
     version = b"HTTP/1.1" if rng.random() < 0.8 else b"HTTP/1.0"
-    hs = [(b"Host", rng.choice([b"example.com", b"other.test"]))]
+    hs = [(b"Host", rng.choice([b"example.com", b"example.com", b"other.test", b"ex\xffmple.com", b"\xe9"]))]     # h11 lets obs-text through
     body = b""
     framing = rng.choice(["none", "none", "cl", "cl", "chunked"])
     if framing == "cl":
